@@ -66,18 +66,19 @@ type Fault struct {
 type crashSentinel struct{ at int }
 
 type API struct {
-	objs   map[string]map[string]runtime.Object
-	rv     int
-	uidn   int
-	now    int64 // logical seconds, advanced on every create
-	calls  []*Call
-	n      int // number of calls since ResetLog (reads included)
-	np     int // number of plan calls (everything but lists) since ResetLog
-	nl     int // number of list calls since ResetLog
-	faults []Fault
-	before func(k int, verb, res, name string)
-	inHook bool
-	quiet  bool // do not log (used by harness-side accesses through clients)
+	objs     map[string]map[string]runtime.Object
+	rv       int
+	uidn     int
+	now      int64 // logical seconds, advanced on every create
+	calls    []*Call
+	n        int // number of calls since ResetLog (reads included)
+	np       int // number of plan calls (everything but lists) since ResetLog
+	nl       int // number of list calls since ResetLog
+	faults   []Fault
+	before   func(k int, verb, res, name string)
+	inHook   bool
+	quiet    bool // do not log (used by harness-side accesses through clients)
+	countAll bool // fault positions count list calls too (drivers whose subject is not the controller)
 }
 
 func NewAPI() *API {
@@ -223,7 +224,7 @@ func (m *API) React(a core.Action) (bool, runtime.Object, error) {
 		c.Res = "apps.statefulsets"
 	}
 	m.n++
-	if c.Verb == "list" {
+	if c.Verb == "list" && !m.countAll {
 		m.nl++
 	} else {
 		m.np++
@@ -247,7 +248,12 @@ func (m *API) React(a core.Action) (bool, runtime.Object, error) {
 	if c.Verb == "patch" {
 		c.Det = string(a.(core.PatchAction).GetPatch())
 	}
-	if f, ok := m.faultFor(c.Verb == "list"); ok {
+	if c.Verb == "delete" {
+		if pol := a.(core.DeleteAction).GetDeleteOptions().PropagationPolicy; pol != nil {
+			c.Det = string(*pol)
+		}
+	}
+	if f, ok := m.faultFor(c.Verb == "list" && !m.countAll); ok {
 		if f.Die && !f.Applied {
 			c.Result = "Died"
 			panic(crashSentinel{c.Idx})
